@@ -295,9 +295,13 @@ type obs struct {
 	ErrKeys []string          // restricted to Spec-file paths
 	Inject  string            // OCI spec after injecting every listed device ("" when nothing resolves)
 	InjErr  string
+	Refresh string // the lines of the error returned by Refresh(), sorted ("" = nil)
 }
 
-func observe(c *cdi.Cache, probe []string) *obs {
+// observe reads everything through queries.  withRefresh also records the
+// value of Refresh(): harmless in auto mode (it does not force a rescan) and
+// for a throw-away reference cache, but it would rescan a manual cache.
+func observe(c *cdi.Cache, probe []string, withRefresh ...bool) *obs {
 	o := &obs{Dev: map[string]string{}}
 	o.Devices = c.ListDevices()
 	names := map[string]bool{}
@@ -322,6 +326,11 @@ func observe(c *cdi.Cache, probe []string) *obs {
 		}
 	}
 	sort.Strings(o.ErrKeys)
+	if len(withRefresh) > 0 && withRefresh[0] {
+		if err := c.Refresh(); err != nil {
+			o.Refresh = refreshLines(err)
+		}
+	}
 	if len(o.Devices) > 0 {
 		spec := &oci.Spec{}
 		_, err := c.InjectDevices(spec, o.Devices...)
@@ -332,6 +341,12 @@ func observe(c *cdi.Cache, probe []string) *obs {
 		o.Inject = string(b)
 	}
 	return o
+}
+
+func refreshLines(err error) string {
+	lines := strings.Split(err.Error(), "\n")
+	sort.Strings(lines)
+	return strings.Join(lines, " ; ")
 }
 
 func diffObs(a, b *obs) string {
@@ -352,6 +367,9 @@ func diffObs(a, b *obs) string {
 	}
 	if !eqStrings(a.ErrKeys, b.ErrKeys) {
 		return fmt.Sprintf("errors|files in error = %v, a fresh cache reports %v", a.ErrKeys, b.ErrKeys)
+	}
+	if a.Refresh != b.Refresh {
+		return fmt.Sprintf("refresh-result|Refresh() returns [%s], with a fresh cache [%s]", a.Refresh, b.Refresh)
 	}
 	if a.Inject != b.Inject || a.InjErr != b.InjErr {
 		return fmt.Sprintf("injection|injecting all devices gives %s (%s), with a fresh cache %s (%s)", a.Inject, a.InjErr, b.Inject, b.InjErr)
@@ -520,12 +538,12 @@ func converge(r *core.Run, reconfigure bool) {
 	e.w.Quiesce()
 	r.CheckHealth("quiescence after the first query round")
 	var got *obs
-	e.do("queries-2", func() { got = observe(e.cache, probe) })
+	e.do("queries-2", func() { got = observe(e.cache, probe, true) })
 	// reference 1: a fresh manual cache built by the real code on the final disk
 	var want *obs
 	e.do("fresh-cache", func() {
 		fresh, _ := cdi.NewCache(cdi.WithSpecDirs(c.dirs...), cdi.WithAutoRefresh(false))
-		want = observe(fresh, probe)
+		want = observe(fresh, probe, true)
 	})
 	if d := diffObs(got, want); d != "" {
 		parts := strings.SplitN(d, "|", 2)
